@@ -219,7 +219,11 @@ class World:
         sig = []
         defaults = spec.get("defaults", {})
         for name, aref in params:
-            dflt = f" = {defaults[name]!r}" if name in defaults else ""
+            if isinstance(defaults.get(name), dict):  # a default VALUE given as a value spec (arrays): built once, like a real default
+                ns[f"_D_{name}"] = build_value(defaults[name])
+                dflt = f" = _D_{name}"
+            else:
+                dflt = f" = {defaults[name]!r}" if name in defaults else ""
             if aref is None:
                 sig.append(name + dflt.replace(" = ", "="))
             else:
@@ -231,12 +235,18 @@ class World:
             ret = " -> _A_ret"
         names = [p[0] for p in params]
         argdict = "dict(" + ", ".join(f"{n}={n}" for n in names) + ")"
+        if spec.get("kwonly") is not None and int(spec["kwonly"]) < len(sig):
+            sig.insert(int(spec["kwonly"]), "*")  # the parameters from this index on are keyword-only
         if spec.get("posonly"):
             sig.insert(min(int(spec["posonly"]), len(sig)), "/")  # the leading parameters are positional-only
         pyname = py_name(self.scn, fid)
-        if kind in ("fn", "gen", "coro", "inject"):
+        if kind in ("fn", "gen", "coro", "inject", "wrapgen"):
             if kind in ("fn", "inject"):
                 body = f"    return _I.body({fid!r}, {argdict})\n"
+            elif kind == "wrapgen":
+                # a generator function whose whole body runs in its first step; the callable that gets decorated is an ordinary
+                # function (functools.wraps) that drives it eagerly -- a collect / priming decorator
+                body = f"    yield _I.body({fid!r}, {argdict})\n"
             elif kind == "coro":
                 # coroutine function: the call returns at once, the body runs when the coroutine is driven (op 'next')
                 body = f"    for _seg in _I.gen_body({fid!r}, {argdict}):\n        pass\n    return None\n"
@@ -246,6 +256,14 @@ class World:
             exec(src, ns)
             f = ns[pyname]
             f.__module__ = "simworld"
+            if kind == "wrapgen":
+                import functools
+
+                inner_gen = f
+
+                @functools.wraps(inner_gen)
+                def f(*a, **k):
+                    return next(inner_gen(*a, **k))
             if kind == "inject":
                 # a callable whose ADVERTISED signature (functools.wraps -> __wrapped__) differs from what it accepts: the
                 # first parameter is supplied by the wrapper itself
@@ -739,6 +757,8 @@ class Interp:
             a = args[i]
             if i < int(spec.get("posonly") or 0) and not omitted:
                 pos.append(a)
+            elif spec.get("kwonly") is not None and i >= int(spec["kwonly"]):
+                kw[n] = a
             elif omitted or kwmode == 2 or (kwmode == 1 and i >= len(names) // 2):
                 kw[n] = a
             else:
